@@ -166,13 +166,159 @@ end
 
 /-- Serialising a well-formed frame and parsing the bytes (followed by anything) gives the
     frame back and leaves exactly what followed. -/
-theorem parseBytes_ser (f : Frame) (hw : wf f = true) (rest : Bytes) :
+theorem parseBytes_ser (f : Frame) (hw : wf f = true) (hd : f.depth ≤ maxNesting + 1) (rest : Bytes) :
     parseBytes (ser f ++ rest) = .ok f rest := by
   unfold parseBytes
-  apply roundtrip_fuel f hw
-  have := depth_le_ser f
-  simp
-  omega
+  exact roundtrip_fuel f hw _ hd rest
+
+/-- every frame the parser returns respects the nesting limit -/
+theorem parseElemsWith_depth (p : Bytes → Res) (n : Nat) (hp : ∀ d f r, p d = .ok f r → f.depth ≤ n) :
+    ∀ k d fs r, parseElemsWith p k d = .ok fs r → depthList fs ≤ n := by
+  intro k
+  induction k with
+  | zero => intro d fs r h; simp [parseElemsWith] at h; rw [h.1]; simp [depthList]
+  | succ k ih =>
+    intro d fs r h
+    unfold parseElemsWith at h
+    cases hpd : p d with
+    | need => simp [hpd] at h
+    | err => simp [hpd] at h
+    | ok f r1 =>
+      simp only [hpd] at h
+      cases hk : parseElemsWith p k r1 with
+      | need => simp [hk] at h
+      | err => simp [hk] at h
+      | ok fs' r' =>
+        simp [hk] at h
+        have h1 := hp d f r1 hpd
+        have h2 := ih r1 fs' r' hk
+        rw [← h.1]
+        simp [depthList]
+        omega
+
+theorem parseLineWith_depth (mk : Bytes → Option Frame) (hmk : ∀ l f, mk l = some f → f.depth = 1) :
+    ∀ d f r, parseLineWith mk d = .ok f r → f.depth = 1 := by
+  intro d f r h
+  unfold parseLineWith at h
+  cases hs : splitCRLF d with
+  | none => simp [hs] at h
+  | some lr =>
+    obtain ⟨l, r1⟩ := lr
+    simp only [hs] at h
+    cases hm : mk l with
+    | none => simp [hm] at h
+    | some f' =>
+      simp [hm] at h
+      rw [← h.1]; exact hmk l f' hm
+
+theorem parseBulk_depth : ∀ d f r, parseBulk d = .ok f r → f.depth = 1 := by
+  intro d f r h
+  unfold parseBulk at h
+  repeat' split at h
+  all_goals (try (simp at h))
+  all_goals (try (rw [← h.1]; rfl))
+
+theorem parseNull_depth : ∀ d f r, parseNull d = .ok f r → f.depth = 1 := by
+  intro d f r h
+  unfold parseNull at h
+  repeat' split at h
+  all_goals (try (simp at h))
+  all_goals (try (rw [← h.1]; rfl))
+
+theorem parseBool_depth : ∀ d f r, parseBool d = .ok f r → f.depth = 1 := by
+  intro d f r h
+  unfold parseBool at h
+  repeat' split at h
+  all_goals (try (simp at h))
+  all_goals (try (rw [← h.1]; rfl))
+
+theorem parseArray_depth (p : Bytes → Res) (n : Nat) (hp : ∀ d f r, p d = .ok f r → f.depth ≤ n) :
+    ∀ d f r, parseArray p d = .ok f r → f.depth ≤ n + 1 := by
+  intro d f r h
+  unfold parseArray at h
+  cases hs : splitCRLF d with
+  | none => simp [hs] at h
+  | some lr =>
+    obtain ⟨l, r1⟩ := lr
+    simp only [hs] at h
+    cases hq : parseI64 l with
+    | none => simp [hq] at h
+    | some v =>
+      simp only [hq] at h
+      by_cases h1 : v = -1
+      · simp [h1] at h; rw [← h.1]; simp [Frame.depth]
+      · by_cases h2 : v < 0
+        · simp [h1, h2] at h
+        · simp only [h1, h2, if_false] at h
+          cases hk : parseElemsWith p v.toNat r1 with
+          | need => simp [hk] at h
+          | err => simp [hk] at h
+          | ok fs r' =>
+            simp [hk] at h
+            have := parseElemsWith_depth p n hp _ _ _ _ hk
+            rw [← h.1]; simp [Frame.depth]; exact this
+
+theorem parseAgg_depth (p : Bytes → Res) (n : Nat) (hp : ∀ d f r, p d = .ok f r → f.depth ≤ n) (m : Bool) :
+    ∀ d f r, parseAgg p m d = .ok f r → f.depth ≤ n + 1 := by
+  intro d f r h
+  unfold parseAgg at h
+  cases hs : splitCRLF d with
+  | none => simp [hs] at h
+  | some lr =>
+    obtain ⟨l, r1⟩ := lr
+    simp only [hs] at h
+    cases hq : parseU64 l with
+    | none => simp [hq] at h
+    | some v =>
+      simp only [hq] at h
+      cases hk : parseElemsWith p (if m = true then 2 * v else v) r1 with
+      | need => simp [hk] at h
+      | err => simp [hk] at h
+      | ok fs r' =>
+        simp [hk] at h
+        have := parseElemsWith_depth p n hp _ _ _ _ hk
+        rw [← h.1]
+        cases m <;> simp [Frame.depth] <;> exact this
+
+theorem parseFrame_depth : ∀ n d f r, parseFrame n d = .ok f r → f.depth ≤ n := by
+  intro n
+  induction n with
+  | zero => intro d f r h; simp [parseFrame] at h
+  | succ n ih =>
+    intro d f r h
+    cases d with
+    | nil => simp [parseFrame] at h
+    | cons t body =>
+      unfold parseFrame at h
+      split at h
+      · have := parseLineWith_depth _ (by intro l f hf; simp at hf; rw [← hf]; rfl) _ _ _ h; omega
+      split at h
+      · have := parseLineWith_depth _ (by intro l f hf; simp at hf; rw [← hf]; rfl) _ _ _ h; omega
+      split at h
+      · have := parseLineWith_depth _ (by
+          intro l f hf
+          cases hp : parseI64 l <;> simp [hp] at hf
+          rw [← hf]; rfl) _ _ _ h
+        omega
+      split at h
+      · have := parseBulk_depth _ _ _ h; omega
+      split at h
+      · exact parseArray_depth _ n ih _ _ _ h
+      split at h
+      · have := parseNull_depth _ _ _ h; omega
+      split at h
+      · have := parseBool_depth _ _ _ h; omega
+      split at h
+      · have := parseLineWith_depth _ (by
+          intro l f hf
+          split at hf <;> simp at hf
+          rw [← hf]; rfl) _ _ _ h
+        omega
+      split at h
+      · exact parseAgg_depth _ n ih true _ _ _ h
+      split at h
+      · exact parseAgg_depth _ n ih false _ _ _ h
+      · simp at h
 
 /-- Framing safety of line replies: whatever bytes an error or simple-string payload carries
     (client text echoed in a message, CR and LF included), its serialisation parses back as exactly
@@ -181,7 +327,7 @@ theorem line_reply_frames (b rest : Bytes) :
     parseBytes (ser (.error b) ++ rest) = .ok (.error (sanitizeLine b)) rest ∧
     parseBytes (ser (.simple b) ++ rest) = .ok (.simple (sanitizeLine b)) rest := by
   have hl := splitCRLF_line (sanitizeLine b) rest (sanitizeLine_noCRLF b)
-  constructor <;> simp [parseBytes, ser, crlf, parseFrame, parseLineWith, hl]
+  constructor <;> simp [parseBytes, maxNesting, ser, crlf, parseFrame, parseLineWith, hl]
 
 
 end Ferrous
